@@ -59,6 +59,7 @@ SKIP = sorted((["cdp-risky"] if K_CDP_LCA in KNOWN else []) + (["cycle"] if KNOW
               (["gebtn-alias"] if K_GEBTN_DUP in KNOWN else []))
 
 TAGS = ["a", "b", "c", "s"]
+TAG_GROUPS = [["a", "c"], ("b", "a"), ("s",)]        # "the name or list of names": lists and tuples of names
 POS = {"preceding": 0x02, "following": 0x04, "contains": 0x08, "contained_by": 0x10}
 
 HISTORY_CFG = {"elems": ["a", "a", "b", "b", "c", "a"], "texts": ["x", "x", "y", ""], "frags": 2}
@@ -483,7 +484,7 @@ class Session(object):
             if alias_below and "gebtn-alias" in self.skip:
                 F.add("gebtn-skipped-known")
             else:
-                for tag in TAGS:
+                for tag in TAGS + TAG_GROUPS:
                     res, err = call_real(R[r].getElementsByTagName, tag)
                     if err is not None:
                         return fail(err.key, dict(detail, root=r, **err.detail()), F)
